@@ -446,6 +446,24 @@ def expand(case):
     eg = EditGen(g)
     ops = list(g.ops)
     ops.append({"op": "evalall"})
+    # user-assigned values in derived cells of static sub spaces: a refused operation must leave them alone
+    # (several refusals used to re-derive the space first and thereby discard them)
+    for s_ in g.rm.walk():
+        if s_.bases and s_.formula is None and not any(a_.formula is not None for a_ in R._ancestors(s_)) \
+                and rnd.random() < 0.6:
+            try:
+                mem_ = R.members(s_)["cells"]
+            except Exception:      # noqa
+                continue
+            dn = [n for n, (d_, c_) in mem_.items() if d_ is not s_ and c_.cached and c_.params
+                  and c_.params[0][1] is None]
+            if dn:
+                cn = rnd.choice(dn)
+                nargs = sum(1 for _p, dflt in mem_[cn][1].params if dflt is None)
+                e0 = {"op": "assign", "inst": [["s", p_] for p_ in s_.path().split(".")], "name": cn,
+                      "args": [1] * nargs, "value": 444}
+                g.emit(e0)
+                ops.append(dict(e0, tag="assign"))
     for _ in range(case["nops"]):
         r = rnd.random()
         if r < 0.12:
